@@ -382,6 +382,24 @@ def runNetworkOnX (runtimeDefault : String) : List Step → List OnxAction
     let a := onxAction runtimeDefault s
     if a == .badValue || a == .panic then [a] else a :: runNetworkOnX runtimeDefault t
 
+/-- one step of `asGenericOnX`: only the two channel operations do anything -/
+def onxActionGeneric (s : Step) : OnxAction :=
+  match s.get "operation" with
+  | some (.str op) =>
+    if op == opChannelWrite then
+      match s.get "input" with
+      | some (.str i) => .write i
+      | _ => .badValue
+    else if op == opChannelReturn then .ret
+    else .skip
+  | _ => .panic
+
+def runGenericOnX : List Step → List OnxAction
+  | [] => []
+  | s :: t =>
+    let a := onxActionGeneric s
+    if a == .badValue || a == .panic then [a] else a :: runGenericOnX t
+
 /-- `DefaultDesiredPriv` of the driver `setDriver` builds: `AsOptions` puts the definition's value
 first, the user's options are appended and applied after it, so a user `WithDefaultDesiredPriv`
 wins -/
@@ -396,16 +414,60 @@ def explicitTargets (steps : List Step) : List String :=
 
 /-! ### options (`optionDefinitions.asOptions`) -/
 
-def optionOk (o : OptionDef) : Bool :=
-  let isS := match o.value with | .str _ => true | _ => false
-  let isI := match o.value with | .int _ => true | _ => false
-  let isF := match o.value with | .float _ => true | _ => false
-  if o.name == "port" || o.name == "read-size" || o.name == "transport-pty-height" || o.name == "transport-pty-width" then isI
-  else if o.name == "auth-bypass" || o.name == "auth-strict-key" then true
-  else if o.name == "prompt-pattern" || o.name == "username-pattern" || o.name == "password-pattern"
-       || o.name == "passphrase-pattern" || o.name == "return-char" || o.name == "transport-type" then isS
-  else if o.name == "read-delay" || o.name == "timeout-ops" then isF
-  else false   -- unknown name: a nil option; `transport-system-open-args`: never a `[]string` from YAML
+/-- what one entry of the `options:` block does: it lands on a field of the driver / channel /
+transport arguments, or `asOptions` panics on it (wrong value type; an unknown name leaves a nil
+option whose application panics), or the constructor refuses it (`ErrBadOption`) -/
+inductive OptOutcome
+  | lands (field : String)
+  | panics
+  | badoption
+  deriving DecidableEq, Repr
+
+def transportTypes : List String := ["system", "standard", "telnet", "file"]
+
+def optionOutcome (o : OptionDef) : OptOutcome :=
+  let str (f : String) : OptOutcome := match o.value with | .str _ => .lands f | _ => .panics
+  let int (f : String) : OptOutcome := match o.value with | .int _ => .lands f | _ => .panics
+  let flt (f : String) : OptOutcome := match o.value with | .float _ => .lands f | _ => .panics
+  if o.name == "port" then int "Args.Port"
+  else if o.name == "read-size" then int "Args.ReadSize"
+  else if o.name == "transport-pty-height" then int "Args.TermHeight"
+  else if o.name == "transport-pty-width" then int "Args.TermWidth"
+  else if o.name == "auth-bypass" then .lands "Channel.AuthBypass"
+  else if o.name == "auth-strict-key" then .lands "SSHArgs.StrictKey"
+  else if o.name == "prompt-pattern" then str "Channel.PromptPattern"
+  else if o.name == "username-pattern" then str "Channel.UsernamePattern"
+  else if o.name == "password-pattern" then str "Channel.PasswordPattern"
+  else if o.name == "passphrase-pattern" then str "Channel.PassphrasePattern"
+  else if o.name == "return-char" then str "Channel.ReturnChar"
+  else if o.name == "read-delay" then flt "Channel.ReadDelay"
+  else if o.name == "timeout-ops" then flt "Channel.TimeoutOps"
+  else if o.name == "transport-type" then
+    match o.value with
+    | .str t => if transportTypes.contains t then .lands "Driver.TransportType" else .badoption
+    | _ => .panics
+  else if o.name == "transport-system-open-args" then
+    match o.value with
+    | .strList _ => .lands "System.ExtraArgs"   -- a YAML list of strings (`[]interface{}`)
+    | _ => .panics
+  else .panics   -- unknown name: nil option
+
+/-- `asOptions` and the application of the option do not panic -/
+def optionOk (o : OptionDef) : Bool := optionOutcome o != .panics
+
+/-- the outcome of a whole block: every type assertion runs first (`asOptions` builds the whole
+slice), then the constructor applies the options in order and stops at the first nil option
+(panic) or refusal -/
+def optionsOutcome (os : List OptionDef) : OptOutcome :=
+  let typePanic := os.any fun o => optionOutcome o == .panics && (o.name == "port" || o.name == "read-size"
+    || o.name == "transport-pty-height" || o.name == "transport-pty-width" || o.name == "prompt-pattern"
+    || o.name == "username-pattern" || o.name == "password-pattern" || o.name == "passphrase-pattern"
+    || o.name == "return-char" || o.name == "read-delay" || o.name == "timeout-ops" || o.name == "transport-type"
+    || o.name == "transport-system-open-args")
+  if typePanic then .panics else
+  match os.find? fun o => match optionOutcome o with | .lands _ => false | _ => true with
+  | some o => optionOutcome o
+  | none => .lands ""
 
 def optionsOk (d : Def) : Bool := d.options.all optionOk
 
